@@ -370,12 +370,16 @@ func (w *world) step(i int, st simcore.Step) bool {
 			return true
 		}
 		ctx := n.Ctx
-		if (st.Arg(0)/7)%2 == 1 {
-			// one message collecting for several positions of the owner (any pools)
-			var group []*refPos
-			for _, q := range w.sortedPos() {
-				if q.owner == ps.owner && len(group) < 3 {
-					group = append(group, q)
+		_, _, liqHere := w.poolState(ctx, ps.pool)
+		if (st.Arg(0)/7)%2 == 1 || liqHere.LT(osmomath.OneDec()) {
+			// one message collecting for several positions of the owner: the picked one, then its pool mates, then
+			// positions in other pools (always when the pool has no active liquidity: forfeits then go to the sender)
+			group := []*refPos{ps}
+			for _, same := range []bool{true, false} {
+				for _, q := range w.sortedPos() {
+					if q != ps && q.owner == ps.owner && (q.pool == ps.pool) == same && len(group) < 3 {
+						group = append(group, q)
+					}
 				}
 			}
 			if len(group) >= 2 {
